@@ -1147,11 +1147,78 @@ func ruleLangID(p *Prog, r *Report) {
 	r.Floor(rule, n, 1)
 }
 
+// delimExceptions reads, in the functions of pkg that take an index into the table and switch on the entry found there,
+// the entries handled apart from the positional rule: a function returning a bool gives "is an opening delimiter" for the
+// listed runes (the others: even index), a function returning an int gives the index of the counterpart as an offset
+// from the index of the listed closing runes (the others: -1).
+func delimExceptions(p *Prog, pkg, name string) (open map[rune]bool, offset map[rune]int) {
+	open, offset = map[rune]bool{}, map[rune]int{}
+	g := p.Obj(pkg, name)
+	for _, f := range p.ModFns() {
+		if fnPkg(f) == nil || fnPkg(f).Path() != p.pkgPath(pkg) || len(f.Params) != 1 || f.Signature.Recv() != nil || f.Signature.Results().Len() != 1 {
+			continue
+		}
+		par := f.Params[0]
+		isEntry := func(v ssa.Value) bool {
+			u, ok := v.(*ssa.UnOp)
+			if !ok || u.Op != token.MUL {
+				return false
+			}
+			ia, ok := u.X.(*ssa.IndexAddr)
+			if !ok || ia.Index != ssa.Value(par) {
+				return false
+			}
+			gl, ok := ia.X.(*ssa.Global)
+			return ok && gl.Object() == g
+		}
+		for _, b := range f.Blocks {
+			iff := ifOf(b)
+			if iff == nil {
+				continue
+			}
+			bo, ok := iff.Cond.(*ssa.BinOp)
+			if !ok || bo.Op != token.EQL || !isEntry(bo.X) {
+				continue
+			}
+			k, ok := bo.Y.(*ssa.Const)
+			if !ok || k.Value == nil {
+				continue
+			}
+			c, _ := constant.Int64Val(constant.ToInt(k.Value))
+			// the block taken when the entry equals the constant, through empty jumps
+			tb := b.Succs[0]
+			for len(tb.Instrs) == 1 && len(tb.Succs) == 1 {
+				tb = tb.Succs[0]
+			}
+			ret, ok := tb.Instrs[len(tb.Instrs)-1].(*ssa.Return)
+			if !ok || len(ret.Results) != 1 {
+				continue
+			}
+			switch x := ret.Results[0].(type) {
+			case *ssa.Const:
+				if x.Value != nil && x.Value.Kind() == constant.Bool {
+					open[rune(c)] = constant.BoolVal(x.Value)
+				}
+			case *ssa.BinOp:
+				if d, ok := x.Y.(*ssa.Const); ok && x.X == ssa.Value(par) && d.Value != nil && (x.Op == token.ADD || x.Op == token.SUB) {
+					v, _ := constant.Int64Val(constant.ToInt(d.Value))
+					if x.Op == token.SUB {
+						v = -v
+					}
+					offset[rune(c)] = int(v)
+				}
+			}
+		}
+	}
+	return open, offset
+}
+
 // ruleDelimParity — R-TAB/parity: the table of paired delimiters is consulted by position (even index: opening, odd index:
-// closing, its counterpart at index-1): no character of general category Ps (opening punctuation) sits at an odd index and
-// none of category Pe (closing punctuation) at an even one. The categories are those of the Go release running the check;
-// characters it does not know have no category and decide nothing. U+FD3E/U+FD3F (ornate parentheses) have their
-// categories exchanged in Unicode itself.
+// closing, its counterpart at index-1), but for the runes the code itself handles apart (read from the code by
+// delimExceptions, not listed here): no character of general category Ps (opening punctuation) is handled as a closing
+// delimiter and none of category Pe (closing punctuation) as an opening one, and the counterpart of every closing
+// delimiter is an opening one. The categories are those of the Go release running the check; characters it does not know
+// have no category and decide nothing.
 func ruleDelimParity(p *Prog, r *Report, le *litEval, pkg, name string) {
 	const rule = "R-TAB/parity"
 	lv := le.Var(p.Obj(pkg, name).(*types.Var))
@@ -1160,26 +1227,44 @@ func ruleDelimParity(p *Prog, r *Report, le *litEval, pkg, name string) {
 	}
 	key := pkg + "." + name
 	r.Instance(rule, key)
-	n := 0
+	openEx, offEx := delimExceptions(p, pkg, name)
+	runes := make([]rune, len(lv.Elems))
 	for i, e := range lv.Elems {
 		x, ok := e.Int()
 		if !ok {
 			undecided("P-LIT: %s.%s[%d] is not constant", pkg, name, i)
 		}
-		c := rune(x)
-		if c == 0xFD3E || c == 0xFD3F {
-			continue
+		runes[i] = rune(x)
+	}
+	isOpen := func(i int) bool {
+		if v, ok := openEx[runes[i]]; ok {
+			return v
 		}
+		return i%2 == 0
+	}
+	n := 0
+	for i, c := range runes {
+		e := lv.Elems[i]
 		if unicode.Is(unicode.Ps, c) || unicode.Is(unicode.Pe, c) {
 			n++
 		}
-		if i%2 == 1 && unicode.Is(unicode.Ps, c) {
-			r.Bad(rule, key, p.Pos(e.Pos), fmt.Sprintf("U+%04X is an opening punctuation (Ps) at the odd index %d: it is handled as the closing counterpart of U+%04X, and the parity of the following entries is shifted", c, i, func() int64 { y, _ := lv.Elems[i-1].Int(); return y }()))
+		if !isOpen(i) && unicode.Is(unicode.Ps, c) {
+			r.Bad(rule, key, p.Pos(e.Pos), fmt.Sprintf("U+%04X is an opening punctuation (Ps) and is handled as a closing delimiter (index %d): it never opens a pair, and with an odd index the parity of the following entries is shifted", c, i))
 			return
 		}
-		if i%2 == 0 && unicode.Is(unicode.Pe, c) {
-			r.Bad(rule, key, p.Pos(e.Pos), fmt.Sprintf("U+%04X is a closing punctuation (Pe) at the even index %d: it is handled as an opening delimiter", c, i))
+		if isOpen(i) && unicode.Is(unicode.Pe, c) {
+			r.Bad(rule, key, p.Pos(e.Pos), fmt.Sprintf("U+%04X is a closing punctuation (Pe) and is handled as an opening delimiter (index %d)", c, i))
 			return
+		}
+		if !isOpen(i) {
+			j := i - 1
+			if d, ok := offEx[c]; ok {
+				j = i + d
+			}
+			if j < 0 || j >= len(runes) || !isOpen(j) {
+				r.Bad(rule, key, p.Pos(e.Pos), fmt.Sprintf("the counterpart of the closing delimiter U+%04X (index %d) is looked for at index %d, which is not an opening delimiter", c, i, j))
+				return
+			}
 		}
 	}
 	if len(lv.Elems)%2 != 0 {
@@ -1187,7 +1272,7 @@ func ruleDelimParity(p *Prog, r *Report, le *litEval, pkg, name string) {
 		return
 	}
 	r.Floor(rule, n, 40)
-	r.OK(rule, key, p.Pos(lv.Pos), fmt.Sprintf("%d Ps/Pe characters sit at the positions their category requires", n))
+	r.OK(rule, key, p.Pos(lv.Pos), fmt.Sprintf("%d Ps/Pe characters are handled as their category requires (%d runes handled apart by the code)", n, len(openEx)))
 }
 
 // ruleCategoryBlocks — R-TAB/blocks: UnicodeData.txt describes the large uniform blocks (CJK ideographs, Hangul syllables,
